@@ -297,6 +297,13 @@ def guarded_run(module, ctx):
         return True
     except Infra:
         raise
+    except subprocess.TimeoutExpired as e:
+        # a `whatshap` subprocess did not finish in the time the harness allows (inputs are small: seconds on the unchanged
+        # tree).  Typical cause on a changed tree: a coverage cap that is no longer enforced (2^coverage table rows).
+        cmd = " ".join(str(a) for a in (e.cmd if isinstance(e.cmd, (list, tuple)) else [e.cmd]))
+        ctx.fail(f"`{cmd[-400:]}` did not finish within {e.timeout:.0f} s on an input the check treats as small",
+                 {"in_flight": getattr(ctx, "last_inflight", None), "command": cmd}, key="cli-timeout")
+        return True
     except Exception as e:
         tb = traceback.extract_tb(e.__traceback__)
         impl = any(f.filename.endswith((".pyx", ".pxd")) or ("/whatshap/" in f.filename and "/harness/" not in f.filename) for f in tb)
